@@ -108,6 +108,12 @@ class AnswerMonitor(WireTracker):
             elif ev[0] == "out":
                 _, t, sid, f = ev
                 if f.h.is_request:
+                    # the node's own requests draw their identifiers from its own generators; a frame that mirrors command code,
+                    # application id and both identifiers of a request pending on this socket is that request's answer with the
+                    # request bit left set (answers to untyped commands carry no Result-Code, so its presence is not required)
+                    if f.h.ident() in self.pending.get(sid, ()):
+                        vs.append((f"answer:request-bit-not-cleared:{cname(f.h.code)}:rc={f.result_code}",
+                                   f"socket {sid}: {f!r} mirrors a pending request but has the R bit set"))
                     continue
                 ident = f.h.ident()
                 pend = self.pending.setdefault(sid, [])
@@ -1157,6 +1163,10 @@ class TableMonitor(GroundTruth):
                 vs.append(("tables:socket-entry-without-connection", f"ident {ident} socket {fs.sid}"))
             if fs.closed:
                 vs.append(("tables:closed-socket-still-in-peer_sockets", f"ident {ident} socket {fs.sid}"))
+        # the table of connections whose capabilities exchange is pending is a connection table too
+        for ident, c in dict(getattr(node, "_half_ready_connections", {})).items():
+            if ident not in conns or c.state == 0x1c:
+                vs.append(("tables:closed-connection-still-in-the-pending-connections-table", f"connection {ident} state {c.state:#x}"))
         listed = {fs.sid for fs in psocks.values()}
         for sid, g in self.c.items():
             fs = fs_by_sid.get(sid)
